@@ -132,7 +132,7 @@ def run(ctx):
                     emit(f, bname, kind, keys, offs, pres, decorate(rng, kind, h["ops"]))
                     n_exec += 1
                 # (b) random indexes of varying sizes, every token key (present and absent) deleted in turn
-                for i in range((1500 if th else 100) // (2 if five and not th else 1)):
+                for i in range((1500 if th else 70) // (2 if five and not th else 1)):
                     keys, pres, bulk = random_index(rng, len(offs), big=(i % 25 == 24))
                     order = list(range(len(keys)))
                     rng.shuffle(order)
